@@ -176,6 +176,17 @@ def gen_poly(rng, n, tier):
         q = [rng.uniform(0.1 * L, 0.9 * L), rng.choice([0.55, 0.6, 0.75, 0.9]) * h]
         out.append({'pts': pts, 'q': q, 'edited': False, 'qtrack': rng.choice([None, 'fresh'])})
     for _ in range(max(20, n // 40)):
+        # an exactly north-south leg, walked up or down, first or in the middle, and a query whose nearest point on it is one of its ENDS (beyond the leg, off its line):
+        # there the end-point answer is the right one, whatever the open finding on vertical legs says about interior feet
+        x0 = float(rng.randint(-20, 20)); y0 = float(rng.randint(-20, 20)); L = float(rng.randint(3, 15))
+        leg = [[x0, y0 + L], [x0, y0]] if rng.random() < 0.6 else [[x0, y0], [x0, y0 + L]]
+        tail = [[x0 + rng.randint(4, 15), leg[-1][1] + rng.randint(-3, 3)]]
+        head = [[x0 - rng.randint(4, 15), leg[0][1] + rng.randint(-3, 3)]] if rng.random() < 0.4 else []
+        pts = head + leg + tail
+        top = max(leg[0][1], leg[1][1]); bot = min(leg[0][1], leg[1][1])
+        q = [x0 + rng.choice([3.0, -2.5, 1.25, -4.0]), rng.choice([top + rng.uniform(0.5, 6), bot - rng.uniform(0.5, 6)])]
+        out.append({'pts': pts, 'q': q, 'edited': False, 'qtrack': rng.choice([None, 'fresh'])})
+    for _ in range(max(20, n // 40)):
         # a leg that is almost, but not exactly, north-south (an easting drift of a micrometre over metres), and a query beside it or on it
         x0 = float(rng.randint(-50, 50)); y0 = float(rng.randint(-50, 50))
         # (slopes between 2e-7 and 1e-6: steeper still, the foot computed through -c / b loses micrometres by cancellation - the neighbourhood of the open finding on vertical segments)
@@ -301,7 +312,12 @@ def finding_poly(case, obs, why):
     if ds:
         dmin = min(d for d, _ in ds)
         cand |= {i for d, i in ds if d <= dmin + 1e-9 * (1 + dmin)}
-    return 'vertical-segment' if any(isv(i) for i in cand) else None
+    # ... and only when the query's foot on that vertical segment is interior, or the query lies on its supporting line: when the nearest point of a vertical segment is
+    # one of its ends, the end-point answer of the unchanged code is the right one
+    def concerned(i):
+        y1, y2 = pts[i][1], pts[i + 1][1]
+        return isv(i) and (x == pts[i][0] or min(y1, y2) < y < max(y1, y2))
+    return 'vertical-segment' if any(concerned(i) for i in cand) else None
 
 
 def shrink_poly(case):
